@@ -372,7 +372,7 @@ func TestC01_Exhaustive(t *testing.T) {
 					}
 					sig, detail, nt, labels := runShareHistory(f, h, 2)
 					if sig != "" {
-						p := rec.SaveReplay(fmt.Sprintf("exh-n%d-t%d-%d", n, th, idx), map[string]any{"n": n, "t": th, "history": histString(h)})
+						p := rec.SaveReplay(t.Name(), fmt.Sprintf("exh-n%d-t%d-%d", n, th, idx), map[string]any{"n": n, "t": th, "history": histString(h)})
 						rec.Violation(sig, fmt.Sprintf("%s\nn=%d t=%d history: %s", detail, n, th, histString(h)), p)
 						t.Errorf("VERIF-FAIL signature=%s :: %s", sig, detail)
 						return
